@@ -72,13 +72,24 @@ def well_typed(o):
             and isinstance(o.get("s"), str) and isinstance(o.get("ex"), str))
 
 
+NAMES = {"p": "price", "a": "amount", "s": "side", "t": "time", "key": "instrument-key"}
+
+
 def anomaly(line):
+    """outcomes the spec's value domains cannot express: errors other than `unidentifiable`,
+    panics, a failed subscription, values that are not the quarter-unit / half-second values the
+    venue message carried"""
     for o in line.get("out", []):
         if o.get("k") == "err":
             return o.get("s") or "error"
         if not well_typed(o):
-            return "event with a value the message did not carry: %s" % json.dumps(o)
+            bad = [NAMES[f] for f in ("key", "p", "a", "t") if not isinstance(o.get(f), int)]
+            return "fields %s: event with a value the message did not carry: %s" % ("+".join(bad), json.dumps(o))
     return None
+
+
+def sign_open(line):
+    return line["c"][0].startswith("gateio_") and line["c"][0] != "gateio_spot"
 
 
 def route_of(line):
@@ -112,8 +123,13 @@ def classify(line, subs):
         elif len(out) != len(fs) or len(evs) != len(out):
             oc = "item-count"
         else:
-            names = {"p": "price", "a": "amount", "s": "side", "t": "time"}
-            diff = sorted({names[f] for o, i in zip(out, fs) for f in "past" if o[f] != i[f]})
+            def differs(o, i, f):
+                if f == "a" and sign_open(line) and i["s"] == "sell" and o["a"] == -i["a"]:
+                    return False
+                if f == "t" and line["c"] == ["binance_spot", "l1", "spot"]:
+                    return False
+                return o[f] != i[f]
+            diff = sorted({NAMES[f] for o, i in zip(out, fs) for f in "past" if differs(o, i, f)})
             oc = "fields:" + "+".join(diff)
     else:
         oc = "event-for-unsubscribed-market" if any(o["k"] == "ev" for o in out) else "not-one-unidentifiable-error"
@@ -161,7 +177,7 @@ def validate(ctx, trace_path, label, verbose=False):
     seen = set()
     for n, d, seg in found:
         line = seg[-1]
-        cls = re.sub(r"[^A-Za-z]+", "-", d.split(":")[0])[:48].strip("-")
+        cls = re.sub(r"[^A-Za-z+]+", "-", d.split(":")[0])[:48].strip("-")
         sig = "%s/%s:anomaly:%s" % (route_of(line), line["fl"], cls)
         desc = "%s (%s): %s on %s [%s, line %d]" % (route_of(line), line["fl"], d, json.dumps({k: line[k] for k in ("a", "S", "off", "m", "fs")}), label, n)
         ctx.violation(sig, desc, {"route": route_of(line), "flavour": line["fl"], "scenario": scenario_of(seg)})
